@@ -74,7 +74,15 @@ where
         self.sec_param
     }
 
-    fn compute_dimensions(&self, _n: usize) -> (usize, usize) {
+    fn compute_dimensions(&self, n: usize) -> (usize, usize) {
+        // The matrix shape (and with it the sparse matrices of the code) is fixed by the
+        // parameters: only a polynomial of the size they were made for fits it. A smaller one
+        // would be zero-padded, i.e. committed as a different polynomial.
+        assert_eq!(
+            ceil_div(n, self.n),
+            self.m,
+            "the polynomial does not have the size these parameters were made for"
+        );
         (self.n, self.m)
     }
 
